@@ -34,7 +34,9 @@ CONSTANTS Ks,         \* ODS widths of the block's square that are enumerated (p
           Kinds,      \* which mutation kinds are enumerated
           AppendMax,  \* "append to the next power-of-two square" only when 2K <= AppendMax
           Dev         \* "none": the design; "nodah": a decoder that does not compare the computed DAH;
-                      \* "rowsonly": one that compares the row roots only (sensitivity runs: must violate
+                      \* "rowsonly": one that compares the row roots only; "emptyshort": one that takes any
+                      \* single share with the tail-padding namespace under a width-2 DAH for the empty block
+                      \* (sensitivity runs: must violate
                       \* CodeMeetsDemand)
 
 VARIABLE kase
@@ -57,6 +59,10 @@ ValidUnder(feat, k, app) == (feat = "sv1" => app # "old") /\ k <= MaxOds(app)
 (* ------------------------------------------------------------------ shares and namespaces *)
 Flips == {"none", "ns", "nsver", "info", "seq", "data", "last"}
 Tok(sq, t, f) == <<sq, t, f>>
+\* the tail-padding share (tail-padding namespace, sequence start, zeros): what squares are filled up
+\* with, and the whole ODS of the empty block "E" (ODS width 1); PadTok(f): with one byte altered
+PadTok(f) == <<"T", 0, f>>
+PadFlips == {"none", "info", "seq", "data", "last"}     \* (flips that keep the namespace bytes)
 
 \* Namespace layout of the generated squares (row-major blocks of a 5-element ascending
 \* palette, the last being tail padding); the harness builds its squares with the same formula.
@@ -64,7 +70,7 @@ Palette == 5
 NsOf(t, n) == (t * Palette) \div n
 \* namespace rank of a token in a payload laid out for n shares; 100 = not decidable here
 \* (an altered namespace), 101 = an invalid namespace version
-NsRank(tok, n0) == CASE tok[1] = "P" -> 200 [] tok[3] = "ns" -> 100 [] tok[3] = "nsver" -> 101 [] OTHER -> NsOf(tok[2], n0)
+NsRank(tok, n0) == CASE tok[1] = "P" -> 200 [] tok[1] = "T" -> Palette - 1 [] tok[3] = "ns" -> 100 [] tok[3] = "nsver" -> 101 [] OTHER -> NsOf(tok[2], n0)
 
 (* ------------------------------------------------------------------ mutation descriptors *)
 \* positions the index-taking mutations are applied at
@@ -94,6 +100,11 @@ MutsOf(kind, k) ==
       [] kind = "rotate"  -> IF N > 1 THEN {M(k, "rotate", 0, 0, 0, "none")} ELSE {}
       \* N all-zero shares
       [] kind = "zeros"   -> {M(k, "zeros", 0, 0, 0, "none")}
+      \* share i replaced by the tail-padding share
+      [] kind = "pad"     -> {M(k, "pad", i, 0, 0, "none") : i \in P}
+      \* every share replaced by the tail-padding share, byte f of the first one altered (for k = 1 this is
+      \* the ODS of the empty block, resp. a mutated one)
+      [] kind = "allpad"  -> {M(k, "allpad", 0, 0, 0, f) : f \in PadFlips}
       \* crafted oversize payloads: i shares laid out in rows of j = floor(sqrt(i)) shares such that the
       \* first share of row r < 2k carries exactly the minimum namespace of the header's row root r (the
       \* square's own share <<r, 0>> in the upper half, a share with the parity namespace in the lower
@@ -125,6 +136,8 @@ ShareAt(m, t) ==
       [] m.kind = "allB"    -> Tok("B", t, "none")
       [] m.kind = "rotate"  -> Tok("A", (t + 1) % N, "none")
       [] m.kind = "zeros"   -> ZeroTok
+      [] m.kind = "pad"     -> IF t = m.i THEN PadTok("none") ELSE Tok("A", t, "none")
+      [] m.kind = "allpad"  -> IF t = 0 THEN PadTok(m.f) ELSE PadTok("none")
       [] m.kind = "craft"   -> LET r == t \div m.j IN
                                IF t % m.j = 0 /\ r < 2 * m.k
                                THEN (IF r < m.k THEN Tok("A", r * m.k, "none") ELSE <<"P", r, "none">>)
@@ -143,6 +156,8 @@ Hdrs(k) == {Hdr("A", k, "none"), Hdr("B", k, "none")}
            \cup (IF k >= 2 THEN {Hdr("A", k \div 2, "none")} ELSE {})
            \cup (IF 2 * k <= AppendMax THEN {Hdr("A", 2 * k, "none")} ELSE {})
            \cup {Hdr("A", k, al) : al \in DahAlts \ {"none"}}
+           \* the header of the genuine empty block (its ODS is the single tail-padding share)
+           \cup (IF k = 1 THEN {Hdr("E", 1, "none")} ELSE {})
 
 \* case: payload m of a square of ODS width m.k with features `feat`, checked against header hdr
 \* whose app version is in class happ, while the decoder is told class app
@@ -154,7 +169,8 @@ AppCases(k) == {Case(M(k, "honest", 0, 0, 0, "none"), OwnHdr(k), x[1], x[2], x[3
 DefaultApp == "new"
 MutCases(k) == UNION {{Case(m, OwnHdr(k), "plain", DefaultApp, DefaultApp) : m \in MutsOf(kd, k)} : kd \in Kinds}
 HdrCases(k) == IF "hdr" \in Kinds
-               THEN {Case(m, h, "plain", DefaultApp, DefaultApp) : m \in MutsOf("honest", k) \cup MutsOf("allB", k) \cup MutsOf("zeros", k), h \in Hdrs(k)}
+               THEN {Case(m, h, "plain", DefaultApp, DefaultApp) : m \in MutsOf("honest", k) \cup MutsOf("allB", k) \cup MutsOf("zeros", k) \cup MutsOf("allpad", k)
+                                                                          \cup (IF k = 1 THEN MutsOf("flip", k) ELSE {}), h \in Hdrs(k)}
                ELSE {}
 CasesOf(k) == (IF "app" \in Kinds THEN AppCases(k) ELSE {}) \cup MutCases(k) \cup HdrCases(k)
 
@@ -165,7 +181,7 @@ IsOriginal(c) ==
     /\ c.hdr.alt = "none"
     /\ c.hdr.k = c.k
     /\ LenOf(c.m) = NN(c.k) /\ TailOf(c.m) = 0
-    /\ \A t \in 0..(NN(c.k) - 1) : ShareAt(c.m, t) = Tok(c.hdr.sq, t, "none")
+    /\ \A t \in 0..(NN(c.k) - 1) : ShareAt(c.m, t) = (IF c.hdr.sq = "E" THEN PadTok("none") ELSE Tok(c.hdr.sq, t, "none"))
 
 \* "accept": must be accepted and the returned square must be the header's square;
 \* "reject": must be rejected; "either": the statement leaves it open (a decoder told a foreign
@@ -193,7 +209,8 @@ ZeroSorted(m, k) == \A t \in 1..(k * k - 1) : ShareAt(m, t) = ZeroTok => ShareAt
 Rej(st) == [v |-> "reject", stages |-> st]
 Code(c) ==
     LET n == LenOf(c.m) IN
-    IF n = 0 /\ TailOf(c.m) = 0 THEN Rej({"empty"})
+    IF Dev = "emptyshort" /\ n = 1 /\ TailOf(c.m) = 0 /\ ShareAt(c.m, 0)[1] = "T" /\ c.hdr.k = 1 THEN [v |-> "accept", stages |-> {}]
+    ELSE IF n = 0 /\ TailOf(c.m) = 0 THEN Rej({"empty"})
     ELSE IF TailOf(c.m) # 0 THEN Rej({"len"})
     ELSE LET k == ISqrt(n) IN
          IF k * k # n THEN Rej({"shape"})                            \* from_ods: not a square
@@ -228,4 +245,5 @@ HonestAccepted == IsCase /\ IsOriginal(kase) /\ kase.app = kase.happ => Code(kas
 OriginalsKnown == IsCase /\ IsOriginal(kase) =>
                     \/ kase.m.kind = "honest" /\ kase.hdr = Hdr("A", kase.k, "none")
                     \/ kase.m.kind = "allB" /\ kase.hdr = Hdr("B", kase.k, "none")
+                    \/ kase.m.kind = "allpad" /\ kase.m.f = "none" /\ kase.hdr = Hdr("E", 1, "none")
 =============================================================================
